@@ -83,6 +83,18 @@ theorem frames_exact_needed_witness :
     readWith full c 100 = .error .desync ∧ readWith { full with cls := none } c 100 = .ok (c.size, [Ev.classBegin 1]) := by
   decide
 
+/-- **old_stack_map_outside_model_witness**: a `Code` with an old-format `StackMap` attribute of more than one entry is
+outside the model (`oldMapOk`): `read_code` orders those entries by label id, so which frames it hands out depends on
+the labels created before — on the real code a visitor that is not interested in line numbers receives fewer frames than
+the full read reports (open finding, witness in `corpus/c17-open-finding-stackmap.txt`). The model refuses to predict
+(`unmodelled`) and `framesExact` / `wellFormed` exclude such files, so no theorem of this file speaks about them. -/
+theorem old_stack_map_outside_model_witness :
+    let c : ClassFrame := { hdrOk := true, hdr := 10, h := 1, fields := [], attrs := [],
+                            methods := [⟨2, [.code { len := 12 + 2 + (6 + 14), hdr := 12, maxs := 1, insns := 2,
+                                                     exc := 3, attrs := [⟨.stackMap, 14, 14, [2]⟩] }]⟩] }
+    readWith full c c.size = .error .unmodelled ∧ framesExact c = false := by
+  decide
+
 /-! ## events delivered -/
 
 /-- **delivered_projection** (relative form): whenever the full read of an exactly framed class succeeds, the read with
